@@ -4,6 +4,7 @@ from .c01 import sym_bloom, bits_of, hv
 from .c12 import FIXED, stub_estimate
 
 PROPERTY = "C13"
+CROSS_CHECK = True      # thorough: dumped assertion queries are re-decided by z3 4.8.12 and cvc5 1.0
 LEVEL = "model_checking"
 STUBS = ["array -> SymArray", "bin(x).count('1') -> popcount over the bit view", "int / int -> exact ratio (numerator, denominator)",
          "BloomFilter.estimate_elements -> 0 in symbolic mode (C14)"]
